@@ -59,6 +59,16 @@ def base_cases(tier, rng, both_modes=True, tol_only=False, strict_only=False, n_
                 for mk in marks:
                     for tol in modes:
                         yield {'tol': tol, 'ctx': gen.CONTEXTS[ctxn], 's': 'a' + mac + btw + mk + ' b'}
+    # histories: parses that fail (strict) or recover (tolerant) inside nested verbatim arguments, groups, formulas — then a
+    # faulty document and a well-formed one, parsed in the same process with the same context
+    for ctxn, pres, docs in (('A', ['\\v{if(a){b', '\\v{{{', '\\v[a[b', '{\\v{x{', '$\\v(y(('], ['a \\v{x}} b', '\\v{x}}', '\\v{f{y}}} z', '\\v[x]] b', '\\v{x} ok', 'a \\v(p)) b', '{\\v{x}}} c']),
+                             ('C', ['\\v{if(a){b', '\\v{{{{'], ['a \\v{x}} b', '\\v{x}}', '\\v{x} {y}']),
+                             ('default', ['{{{\\end{x}', '$\\verb|', '\\begin{verbatim}x', '\\[ {', '\\begin{a}\\begin{b}'], ['a}', '{a}} b', '$x$ }', '\\verb|x|}', 'ok {a} $b$', '\\begin{a}x\\end{a}\\begin{b}y\\end{b}'])):
+        for k in (1, 2, 3):
+            for pre in (itertools.product(pres, repeat=k) if k == 1 else [tuple(rng.choice(pres) for _ in range(k)) for _ in range(6)]):
+                for s in docs:
+                    for tol in modes:
+                        yield {'tol': tol, 'ctx': gen.CONTEXTS[ctxn], 's': s, 'pre': list(pre)}
     # square brackets inside a child construct of an optional bracket argument are text (only the argument's own closer is structural)
     for ctxn, macs in (('default', ['\\sqrt', '\\item', '\\section']), ('A', ['\\o', '\\so*', '\\oo'])):
         for mac in macs:
